@@ -7,6 +7,7 @@ CONSTANT ReqSets <- RS2
 CONSTANT MaxWrites = 3
 CONSTANT PutSets <- PS2
 CONSTANT ConfSets <- NoSets
+CONSTANT CoalSets <- NoSets
 CONSTANT Lims = {0}
 SPECIFICATION Spec
 INVARIANT BehaviourExport
